@@ -84,7 +84,8 @@ pub fn panic_class(e: &Box<dyn Any + Send>) -> String {
         ("attempt to subtract with overflow", "PArithSub"),
         ("attempt to add with overflow", "PArithAdd"),
         ("attempt to multiply with overflow", "PArithMul"),
-        ("assertion", "PAlignAssert"),
+        ("assertion `left == right` failed\n  left: ", "PAssertEq"),
+        ("assertion", "PAssert"),
         ("called `Option::unwrap()` on a `None` value", "PUnwrapNone"),
         ("harness:", "HARNESS"),
     ];
